@@ -5,7 +5,8 @@
    timing (position, chord, grace, backup/forward, furthest position = end of the measure).
    All theorems quantify over ALL inputs (any number of voices, gaps, chords with unequal
    durations, grace notes, non-note elements, divisions segments). *)
-From PV Require Import Lib.Base Model.C03 Proofs.C03.
+From PV Require Import Lib.Base Model.C03 Proofs.C03 Proofs.C03_Seq Proofs.C03_Q.
+From Coq Require Import QArith.
 From Coq Require Import Permutation.
 #[local] Open Scope Z_scope.
 
@@ -69,11 +70,58 @@ Theorem voices_preserve_notes : forall ns, Permutation (flat_map snd (voices_of 
 Proof. exact voices_of_perm. Qed.
 Print Assumptions voices_preserve_notes.
 
-(* UNPROVED TARGET (kept as a comment, see design.d/C03.md): after re-assignment every voice is
-   sequential.  It is evaluated instead, as the boolean sequential_b of Model/C03.v, on every
-   generated measure by the correspondence check (a).
-   target rvp_sequential : forall ns v l,
-     durs_ok ns -> In (v, l) (rvp (partition_voices ns)) -> sequential_b l = true. *)
+(* after the voice re-assignment (remove_voice_polyphony: both passes, find_free_voice over the
+   spans of ALL notes moved so far) every voice is sequential -- simultaneous non-grace notes of a
+   voice have equal durations (a chord the reader resolves) and no note runs past a later onset of
+   its voice -- for every list of notes without negative durations, any number of voices.
+   sequential_b is the boolean the correspondence (a-model) evaluates on every written measure. *)
+Theorem rvp_sequential : forall ns,
+  durs_ok ns -> Forall (fun vl => sequential_b (snd vl) = true) (rvp (partition_voices ns)).
+Proof. exact rvp_sequential_lemma. Qed.
+Print Assumptions rvp_sequential.
+
+Theorem voices_sequential : forall ns,
+  durs_ok ns -> Forall (fun vl => sequential_b (snd vl) = true) (voices_of ns).
+Proof. exact voices_sequential_lemma. Qed.
+Print Assumptions voices_sequential.
+
+(* The DECIDING measure check of the correspondence, spec_measure_b (evaluated in Coq on the element
+   stream of every written measure: the reader places every note of the score's measure at its onset
+   with its duration, as a multiset, and ends exactly at the measure end), is passed by the model's
+   stream for every measure whose contents lie inside [ms, me] ... *)
+Theorem written_measure_meets_spec : forall segs ms me,
+  segs_ok segs -> ms <= me ->
+  Forall (fun seg => notes_le me (fst seg) /\ others_le me (snd seg)) segs ->
+  spec_measure_b (segs, ms, me, lin_measure segs ms me) = true.
+Proof. exact lin_measure_meets_spec_lemma. Qed.
+Print Assumptions written_measure_meets_spec.
+
+(* ... and so is the whole checker (spec, element-for-element tie, sequential voices): a written
+   measure on which check_measure_both is false is NOT the model's stream, or violates the spec *)
+Theorem model_stream_passes_check : forall segs ms me,
+  segs_ok segs -> ms <= me ->
+  Forall (fun seg => notes_le me (fst seg) /\ others_le me (snd seg)) segs ->
+  check_measure_both (segs, ms, me, lin_measure segs ms me) = true.
+Proof. exact lin_measure_passes_check_lemma. Qed.
+Print Assumptions model_stream_passes_check.
+
+(* The reader in quarters that the whole-part correspondence (b) evaluates (interp_q) is the
+   division-axis reader of the theorems above (interp) scaled by the divisions in force: on ANY
+   stream without a change of divisions (barlines, backup/forward, chords, grace notes allowed),
+   started in related states (quarter position = c + division position / q), it outputs the same
+   notes in the same order, each at c + onset/q with duration dur/q, and ends in related states.
+   (Across a change of divisions the offset c changes; that chaining is evaluated by (b), not proved.) *)
+Theorem interp_q_scales : forall es c q si sq,
+  no_div es -> rel c q si sq ->
+  note_rel c q (fst (interp es si)) (interp_q es sq) /\
+  rel c q (snd (interp es si)) (snd (interp_qs es sq)).
+Proof. exact interp_q_scales_lemma. Qed.
+Print Assumptions interp_q_scales.
+
+(* the start state of check_part is related to the start state of the first measure (c = 0) *)
+Theorem interp_q_start : forall q, rel 0 q (mkI 0 0 0) (mkQ 0 0 0 q).
+Proof. exact rel_start. Qed.
+Print Assumptions interp_q_start.
 
 (* tie merge is invariant under splitting a piece of the chain at a barline *)
 Theorem sounding_merge_ties : forall b c, chain_sound (split_at b c) = chain_sound c.
